@@ -45,4 +45,47 @@ theorem sys_sealed_restart_transparent (dec : WPath.Bytes → List Collector.Met
     readC03 U (handed dec (H1 ++ .restart :: H2)) = readC03 U (handed dec (H1 ++ H2)) := by
   rw [(sys_i1_replayed dec hdec (H1 ++ H2) hwf).2 H1 H2 rfl]
 
+/-! ## rotation: a store serving many fractions, the one that took the bulk having gone through a crash history -/
+
+/-- the fraction that took the acknowledged bulk `b` went through the write-path history `H` and is still active:
+the store `Holds` the bulk in the sense of `sys_i1_mixed`, whatever other fractions `fs` lists -/
+theorem sys_holds_of_history_active (dec : WPath.Bytes → List Collector.Meta) (hdec : ExtBlind dec) (H : List WPath.Ev)
+    (hwf : ∀ e ∈ H, e.WF) (names : List Bytes) (from_ : Nat) (fs : List Merge.FracIdx)
+    (b : WPath.Blk × WPath.Blk) (hbk : b ∈ WPath.ackedOf H)
+    (hd : Collector.DistinctBulks (handed dec H)) (hs : Collector.NonEmptyDocs (handed dec H))
+    (hg : ActiveReach.GoodIDs (handed dec H))
+    (hfirst : ∀ m ∈ dec (WPath.enc b.2), m ∈ ActiveReach.keptRun Collector.Active.empty (handed dec H))
+    (hin : activeFrac (reached (handed dec H)) ∈ fs) :
+    Holds names from_ fs (dec (WPath.enc b.2)) :=
+  .active (handed dec H) ((sys_i1_replayed dec hdec H hwf).1 b hbk) hd hs hg hfirst hin
+
+/-- the same fraction, sealed after the history (rotation seals the fraction a full active one leaves behind) -/
+theorem sys_holds_of_history_sealed (dec : WPath.Bytes → List Collector.Meta) (hdec : ExtBlind dec) (H : List WPath.Ev)
+    (hwf : ∀ e ∈ H, e.WF) (names : List Bytes) (from_ : Nat) (fs : List Merge.FracIdx)
+    (b : WPath.Blk × WPath.Blk) (hbk : b ∈ WPath.ackedOf H)
+    (hd : Collector.DistinctBulks (handed dec H)) (hs : Collector.NonEmptyDocs (handed dec H))
+    (hfirst : ∀ m ∈ dec (WPath.enc b.2), m ∈ ActiveReach.keptRun Collector.Active.empty (handed dec H))
+    (U : List (List (Bytes × C03.Tok))) (size cap rbs base : Nat) (posOf : C03.ID → Nat)
+    (hq : C03.Quiescent (readC03 U (handed dec H))) (hsize : 1 ≤ size) (hcap : 1 ≤ cap) (sl : C03.Sealed)
+    (hseal : C03.sealFrac size size cap rbs base posOf (readC03 U (handed dec H)) = .ok sl) (fr to : Nat)
+    (hb : ∀ l ∈ (readC03 U (handed dec H)).allDocs,
+      fr ≤ (readC03 U (handed dec H)).mids.getD l 0 ∧ (readC03 U (handed dec H)).mids.getD l 0 ≤ to)
+    (hz : ∀ l ∈ (readC03 U (handed dec H)).allDocs,
+      (⟨(readC03 U (handed dec H)).mids.getD l 0, (readC03 U (handed dec H)).rids.getD l 0⟩ : Spec.ID) ≠ ⟨0, 0⟩)
+    (hcov : ∀ m ∈ dec (WPath.enc b.2), Collector.allToken ∈ m.tokens.map Collector.MetaToken.bytes ∧
+      ∀ tok ∈ m.tokens, Covers names U tok.bytes)
+    (hin : sealedFrac names (readC03 U (handed dec H)) sl fr to ∈ fs) :
+    Holds names from_ fs (dec (WPath.enc b.2)) :=
+  .sealed (handed dec H) ((sys_i1_replayed dec hdec H hwf).1 b hbk) hd hs hfirst U size cap rbs base posOf hq hsize hcap sl
+    hseal fr to hb hz hcov hin
+
+/-- **I1 for a rotating store after crashes.**  The store serves any list `fs` of fractions; the one that took the
+acknowledged bulk went through any crash/restart history and is now active or sealed: every meta of the bulk has a
+stored document with its ID and tokens among the documents the store serves. -/
+theorem sys_i1_rotated_crash (names : List Bytes) (from_ : Nat) (fs : List Merge.FracIdx)
+    (dec : WPath.Bytes → List Collector.Meta) (b : WPath.Blk × WPath.Blk)
+    (hh : Holds names from_ fs (dec (WPath.enc b.2))) (m : Collector.Meta) (hm : m ∈ dec (WPath.enc b.2)) :
+    ∃ d ∈ storedDocs fs, d.id = ActiveReach.toID m.id ∧ ∀ tok ∈ m.tokens, ActiveReach.splitTok tok.bytes ∈ d.tokens :=
+  sys_i1_mixed names from_ fs _ hh m hm
+
 end SV.Sys
